@@ -266,10 +266,18 @@ func init() {
 }
 
 func (ex *Exec) intrinsic(name string) stubFn {
-	if !strings.HasPrefix(name, harnessPkg) {
+	// intrinsics live in the gmars package and (copied) in cmd/gmars
+	if !strings.HasPrefix(name, "github.com/bobertlo/gmars") {
 		return nil
 	}
-	short := name[len(harnessPkg):]
+	i := strings.LastIndex(name, ".")
+	if i < 0 {
+		return nil
+	}
+	short := name[i+1:]
+	if strings.Contains(name[:i], "(") {
+		return nil // a method
+	}
 	if h, ok := intrinsics[short]; ok {
 		return h
 	}
